@@ -676,6 +676,12 @@ class Provenance:
             for c in children(n):
                 self.term(c, env, depth)
             return ("?", k)
+        if k == "Assign":
+            v = self.term(n["r"], env, depth)
+            l = peel(n["l"])
+            if l.get("k") == "Var":
+                env[l["v"]] = v
+            return ("unit",)
         if k == "For":
             it = self.term(n["iter"], env, depth)
             if n["pat"].get("k") == "Bind":
@@ -1317,3 +1323,156 @@ def q7(facts, tier):
         yield ob(["C15"], "Q7", "compared-against-the-file-of-the-loop-version", "pass" if okp else "undecided", where(f, n),
                  "the recorded definition is loaded from the file named after the loop's version" if okp else
                  "origin of the recorded definition not recognised")
+
+
+# ---------------------------------------------------------------------------------------------
+# K8 (C14, C07): the encrypted stream has no optional records
+
+@rule("K8", ["C14", "C07"], floor=1, doc="CryptoWriter::flush writes a record only while unwritten plaintext remains: the record header write is "
+      "guarded, inside the loop, by `buffer length > offset` (or iterates over non-empty chunks). The framing has no end marker, so a "
+      "record that carries no plaintext could be cut off without the reader noticing")
+def k8(facts, tier):
+    from ..flow import parent_map
+    f = next((g for g in facts.fns.values() if g["crate"] == "savefile" and "CryptoWriter" in g["id"] and g["id"].endswith("::flush")), None)
+    if f is None:
+        return
+    pm = parent_map(f["body"])
+    n = 0
+    for x in walk(f["body"]):
+        if not (x.get("k") == "Call" and (callee(x) or "").endswith(("WriteBytesExt::write_u64", "WriteBytesExt>::write_u64"))):
+            continue
+        n += 1
+        loop = None
+        guards = []
+        chain = []
+        p, child = pm.get(id(x)), x
+        while p is not None:
+            if p.get("k") == "If" and any(child is y for y in [p["t"]]) :
+                guards.append(p["c"])
+            if p.get("k") in ("Loop", "For"):
+                loop = p
+                break
+            child = p
+            p = pm.get(id(p))
+        def remaining_guard(c):
+            c = peel_block(peel(c))
+            if c.get("k") == "Logic" and c["op"] == "And":
+                return remaining_guard(c["l"]) or remaining_guard(c["r"])
+            if c.get("k") == "Bin" and c["op"] in ("Gt", "Lt", "Ne"):
+                l, r = peel_block(peel(c["l"])), peel_block(peel(c["r"]))
+                if c["op"] == "Lt":
+                    l, r = r, l
+                is_len = lambda e: e.get("k") == "Call" and (callee(e) or "").endswith("::len")
+                if is_len(l) and r.get("k") in ("Var", "Lit"):
+                    return True
+                if l.get("k") == "Var" and r.get("k") == "Lit" and r.get("int") == 0:
+                    return True      # `remaining > 0`
+            if c.get("k") == "Un" and c.get("op") == "Not":
+                e = peel_block(peel(c["e"]))
+                if e.get("k") == "Call" and (callee(e) or "").endswith("::is_empty"):
+                    return True
+            return False
+        key = f"record-carries-plaintext#{n}"
+        if loop is None:
+            ok = any(remaining_guard(g) for g in guards)
+            yield ob(["C14", "C07"], "K8", key, "pass" if ok else "undecided", where(f, x),
+                     "the only record is written under a non-empty guard" if ok else "a record is written outside any loop: emptiness not established")
+            continue
+        if loop.get("k") == "For":
+            it = str(loop.get("iter"))
+            ok = "chunks" in it
+            yield ob(["C14", "C07"], "K8", key, "pass" if ok else "undecided", where(f, x),
+                     "records are written per non-empty chunk of the buffer" if ok else "iteration form not modelled")
+            continue
+        ok = any(remaining_guard(g) for g in guards)
+        yield ob(["C14", "C07"], "K8", key, "pass" if ok else "violation", where(f, x),
+                 f"{f['id']}: a record is written only while the buffer extends beyond the bytes already written" if ok else
+                 f"{f['id']}: inside its loop the record header is written without a check that unwritten plaintext remains: when the buffered "
+                 f"plaintext is an exact multiple of the chunk size an empty record is appended, and a file with that record cut off still "
+                 f"authenticates and loads")
+
+
+
+# ---------------------------------------------------------------------------------------------
+# W15: booleans packed into a flag byte come back out of the bit they were put into
+
+def _flag_bits_written(n, acc):
+    """`if a {1} else {0} | if b {2} else {0} | ...` -> {var: bit}"""
+    n = peel_block(peel(n))
+    if n.get("k") == "Bin" and n["op"] in ("BitOr", "Add"):
+        return _flag_bits_written(n["l"], acc) and _flag_bits_written(n["r"], acc)
+    if n.get("k") == "If" and n.get("f") is not None:
+        c = peel(n["c"])
+        t, e = peel_block(peel(n["t"])), peel_block(peel(n["f"]))
+        if c.get("k") == "Var" and t.get("k") == "Lit" and e.get("k") == "Lit" and e.get("int") == 0:
+            acc[c["v"]] = t.get("int")
+            return True
+    if n.get("k") == "Cast":
+        return _flag_bits_written(n["e"], acc)
+    return False
+
+
+@rule("W15", ["C13", "C15", "C01"], floor=1, doc="booleans packed into one flag byte: the bit each variant component is written with is the mask it "
+      "is read back with, and the bits are distinct powers of two")
+def w15(facts, tier):
+    from .wire_rules import impl_pairs
+    from .taint_rules import pat_binds
+    sers, des = impl_pairs(facts)
+    des_by_ty = {ty: v for (ty, fid), v in des.items()}
+    for (ty, fid), (wf, wts) in sorted(sers.items()):
+        if ty not in des_by_ty:
+            continue
+        rf, _ = des_by_ty[ty]
+        for x in walk(wf["body"]):
+            if x.get("k") != "Match":
+                continue
+            for arm in x["arms"]:
+                pat = arm["pat"]
+                if pat.get("k") != "Variant":
+                    continue
+                for y in walk(arm["body"]):
+                    if not (y.get("k") == "Call" and (callee(y) or "").endswith("::write_u8") and len(y.get("args", [])) == 2):
+                        continue
+                    bits = {}
+                    if not _flag_bits_written(y["args"][1], bits) or len(bits) < 2:
+                        continue
+                    # component position of each variable in the variant pattern
+                    pos = {}
+                    for i, sp in enumerate(pat.get("subs", [])):
+                        q = sp.get("p", sp) if isinstance(sp, dict) else sp
+                        idx = sp.get("f", i) if isinstance(sp, dict) else i
+                        for b in pat_binds(q):
+                            pos[b["v"]] = str(idx)
+                    wbits = {pos[v]: b for v, b in bits.items() if v in pos}
+                    # reader: construction of the same variant; component vars defined as `(m & LIT) != 0`
+                    masks = {}
+                    for z in walk(rf["body"]):
+                        if z.get("k") == "LetS" and z["pat"].get("k") == "Bind" and z.get("init") is not None:
+                            i = peel_block(peel(z["init"]))
+                            if i.get("k") == "Bin" and i["op"] in ("Ne", "Eq", "Gt"):
+                                a, b = peel_block(peel(i["l"])), peel_block(peel(i["r"]))
+                                if a.get("k") == "Bin" and a["op"] == "BitAnd" and peel(a["r"]).get("k") == "Lit" and b.get("k") == "Lit":
+                                    m = peel(a["r"])["int"]
+                                    # `(x & m) != 0`, `> 0`, or `== m`
+                                    if (i["op"] in ("Ne", "Gt") and b.get("int") == 0) or (i["op"] == "Eq" and b.get("int") == m):
+                                        masks[z["pat"]["v"]] = m
+                    rbits = {}
+                    for z in walk(rf["body"]):
+                        if z.get("k") == "Adt" and z.get("adt") == pat.get("adt") and z.get("variant") == pat.get("variant"):
+                            for fl in z["fields"]:
+                                e = peel(fl["e"])
+                                if e.get("k") == "Var" and e["v"] in masks:
+                                    rbits[str(fl["f"])] = masks[e["v"]]
+                    key = f"{ty}::{pat.get('variant')}"
+                    if not rbits:
+                        yield ob(["C13", "C15", "C01"], "W15", key, "undecided", where(wf, y), f"{key}: flag byte written with bits {wbits}; the reader's masks were not recognised")
+                        continue
+                    bad = []
+                    for p_, b in sorted(wbits.items()):
+                        if rbits.get(p_) != b:
+                            bad.append(f"component {p_} is written as bit value {b} but read back with mask {rbits.get(p_)}")
+                    if len(set(wbits.values())) != len(wbits) or any(b & (b - 1) for b in wbits.values()):
+                        bad.append(f"the written bit values {sorted(wbits.values())} are not distinct powers of two")
+                    yield ob(["C13", "C15", "C01"], "W15", key, "violation" if bad else "pass", where(rf if bad else wf, y),
+                             f"{key}: " + ("; ".join(bad) + ": the stored flags do not survive a write/read cycle (a recorded interface definition "
+                                           "comes back with different Send/Sync/Unpin bounds)" if bad else f"{len(wbits)} flags use the same bits on both sides: {wbits}"))
